@@ -97,6 +97,12 @@ func structureOf(ts []gtok) (lexdefs [][2]string, regrefs, prodheads, prodrefs [
 		}
 		st := ts[start:i]
 		start = i + 1
+		// the file header (one action-expression literal) stands directly before the first syntax
+		// production: it belongs to no production (where else such a literal in front of a head is
+		// no sentence, the syntax verdict decides alone)
+		if len(st) >= 3 && st[0].Kind == "g_sdt_lit" && st[1].Kind == "prodId" && st[2].Kind == ":" {
+			st = st[1:]
+		}
 		if len(st) < 2 || st[1].Kind != ":" {
 			continue
 		}
@@ -415,6 +421,19 @@ func replayGoccReject(c *Ctx, r *Replay) (bool, string) {
 		return false, "gocc did not terminate (not a C14 verdict)"
 	}
 	if run.Code == 0 {
+		// judge the file again (the recorded verdict is not trusted): only a file that the
+		// specification calls ill-formed must be refused
+		if ts := tokenizeGrammar(text); ts != nil {
+			clean := true
+			for _, t := range ts {
+				if t.Kind == "error" || t.Kind == "empty" {
+					clean = false // known finding F8 lives there
+				}
+			}
+			if v := c.c14Judge([]c14Case{{Text: text, Toks: ts}})[0]; clean && !v.ill() {
+				return false, "gocc exits 0 and GoccSyntax.tla judges the file well-formed"
+			}
+		}
 		return true, "gocc exits 0: " + strings.TrimSpace(tail(run.Out, 2))
 	}
 	return false, fmt.Sprintf("refused with exit status %d", run.Code)
